@@ -1,0 +1,39 @@
+//go:build verif
+
+// Contracts for property C14 (calls are checked exactly against the callee's declared interface).
+// Per iteration of the comparison loops: an input/secret is reported iff the callee does not declare
+// it (under its lower-cased id), a declared required one iff the call does not supply it.
+// Verified by govc.
+
+package actionlint
+
+//@ func (*RuleAction).checkAction
+//@   props C14
+//@   anchor
+//@   loop "range exec.Inputs":
+//@     body_calls (*RuleBase).Errorf iff !meta.Inputs.has(id)
+//@     at_call (*RuleBase).Errorf: pos == i.Name.Pos
+//@   loop "range meta.Inputs" #2:
+//@     body_calls (*RuleBase).Errorf iff i.Required && !exec.Inputs.has(id)
+//@     at_call (*RuleBase).Errorf: pos == exec.Uses.Pos
+
+//@ func (*RuleWorkflowCall).checkWorkflowCallUsesLocal
+//@   props C14
+//@   anchor
+//@   loop "range m.Inputs":
+//@     body_calls (*RuleBase).Errorf iff i != nil && i.Required && !call.Inputs.has(n)
+//@   loop "range call.Inputs":
+//@     body_calls (*RuleBase).Errorf iff !m.Inputs.has(n)
+//@     at_call (*RuleBase).Errorf: pos == i.Name.Pos
+//@   loop "range m.Secrets":
+//@     body_calls (*RuleBase).Errorf iff s.Required && !call.Secrets.has(n)
+//@   loop "range call.Secrets":
+//@     body_calls (*RuleBase).Errorf iff !m.Secrets.has(n)
+//@     at_call (*RuleBase).Errorf: pos == s.Name.Pos
+
+// outputs: strict object with exactly the lower-cased declared names, open when outputs are dynamic
+//@ func typeOfActionOutputs
+//@   props C14
+//@   anchor
+//@   ensures meta.SkipOutputs ==> result.Mapped != nil
+//@   ensures !meta.SkipOutputs ==> result.Mapped == nil
